@@ -6,6 +6,7 @@
 
 use async_trait::async_trait;
 use derive_builder::Builder;
+use http_types::headers::CONTENT_TYPE;
 use serde::{Deserialize, Serialize};
 
 use crate::HttpError;
@@ -221,9 +222,16 @@ impl ProtocolRequestBuilder for crate::Request {
 impl From<HttpResponse> for crate::ResponseAsync {
     fn from(effect_response: HttpResponse) -> Self {
         let mut res = http_types::Response::new(effect_response.status);
-        res.set_body(effect_response.body);
         for header in effect_response.headers {
             res.append_header(header.name.as_str(), header.value);
+        }
+
+        // Setting a body makes http-types add `content-type: application/octet-stream` when the
+        // response has no content type; the app must see the headers the shell reported, no more.
+        let has_content_type = res.header(CONTENT_TYPE).is_some();
+        res.set_body(effect_response.body);
+        if !has_content_type {
+            res.remove_header(CONTENT_TYPE);
         }
 
         crate::ResponseAsync::new(res)
